@@ -1056,7 +1056,9 @@ func (d *driver) reportDeath(a *Area, t task, res uptoResult) {
 		key = KeyFor(res.entry, names, text)
 		if !strings.Contains(key, "/goroutine:") {
 			// a panic outside the calling goroutine's recover: say so
-			key = strings.Replace(key, "/", "/unrecovered:", 1)
+			if i := strings.LastIndex(key, "/"); i >= 0 {
+				key = key[:i] + "/unrecovered:" + key[i+1:]
+			}
 		}
 	}
 	d.violation(a, t, "fatal", key,
